@@ -8,8 +8,7 @@
 (* bytes.  An event conforms iff the decoders' verdicts equal DecodeSig/DecodePK and the verify   *)
 (* verdict equals SpecVerify; a panic never conforms.  Non-conforming events are collected in     *)
 (* `bad` (the trace is accepted iff bad = {} at the end); every event prints a VERDICT line.      *)
-EXTENDS Verify, Json, IOUtils
-Rec == ndJsonDeserialize(IOEnv.TRACE)
+EXTENDS Verify, TraceLib
 VARIABLES l, bad, tally
 vars == <<l, bad, tally>>
 
@@ -23,18 +22,19 @@ Judge(e) ==
       branch |-> r.branch, norm |-> r.norm, expect |-> expect, sig_ok |-> ds.ok, pk_ok |-> dp.ok]
 
 \* TLC evaluates this constant once, outside the action context (where it would not cache LET values)
-Judged == Force([i \in 1..Len(Rec) |-> Judge(Rec[i])])
+ASSUME TLCSet(2, Force([i \in 1..NRec |-> Judge(Rec[i])]))
+Judged == TLCGet(2)
 
 Init == l = 1 /\ bad = {} /\ tally = <<>>
-Next == /\ l <= Len(Rec)
+Next == /\ l <= NRec
         /\ LET j == Judged[l] IN
              /\ PrintT(<<"VERDICT", l, IF j.ok THEN "ok" ELSE "MISMATCH", j.branch, j.norm,
                          "spec", j.expect, j.sig_ok, j.pk_ok, "code", Rec[l].res, Rec[l].sig_ok, Rec[l].pk_ok>>)
              /\ bad' = IF j.ok THEN bad ELSE bad \cup {l}
              /\ tally' = Append(tally, j.branch)
         /\ l' = l + 1
-        /\ (l < Len(Rec) \/ PrintT(<<"DONE", Len(Rec), bad'>>))
+        /\ (l < NRec \/ PrintT(<<"DONE", NRec, bad'>>))
 Spec == Init /\ [][Next]_vars
 \* every conforming prefix keeps bad empty; reported through the DONE line and this invariant's twin in the runner
-TraceAccepted == TLCGet("stats").diameter = Len(Rec) + 1
+TraceAccepted == TLCGet("stats").diameter = NRec + 1
 =====================================================================
